@@ -157,3 +157,25 @@ def registry_entries(reg):
             cbs = found["cb"] + [("c", None), ("c", None)]
             out.append((found["req"][0], cbs[0], cbs[1]))
     return out
+
+
+def event_handlers(repo, cls):
+    """{event name: method name} as the layer's own constructor registers them - YowLayer.__init__ run by the
+    interpreter, the repository's decorators applied to the methods (sa/absint.func_attrs); None when the constructor
+    cannot be followed or leaves no closed table"""
+    try:
+        runner = LayerRunner(repo)
+        it = Interp(repo, {}, {}, hooks=runner.hooks())
+        it.layer_base = runner.base
+        layer = runner.make_layer(it, cls)
+    except (NeedAtom, DomainGrew, Budget, _Raise):
+        return None
+    ec = layer[1].fields.get("event_callbacks")
+    if ec is None or ec[0] != "dict" or (len(ec) > 2 and ec[2]):
+        return None
+    out = {}
+    for k, v in ec[1].items():
+        if not isinstance(k, str) or v[0] != "bound":
+            return None
+        out[k] = v[2]
+    return out
